@@ -97,6 +97,39 @@ func runC06(c RTCase) (fails []vstat.Failure) {
 				clientAuthz = append(clientAuthz, f.Value)
 			}
 		}
+		if r.InnerHost != "" {
+			// where such a request ends up is not C06's subject; who learns which credentials is: the entry for the site
+			// named inside the session must not reach the site the session was opened to (or anybody else it does not
+			// also select)
+			h2, o2 := e.hostOf(r.InnerHost)
+			if u, p, ok := e.refCredMatch(c.Cfg.Creds, h2, o2.Port); ok {
+				secret := "Basic " + b64(u+":"+p)
+				for peerName, msgs := range o.newMsgs {
+					peer := e.peers[peerName]
+					if peerName == o2.Name || peer == nil {
+						continue
+					}
+					own := ""
+					site := map[string]string{"OA": "a.test", "OA80": "a.test", "OA443": "a.test", "OB": "b.test", "OL": "localhost"}[peerName]
+					if site != "" {
+						if u2, p2, ok2 := e.refCredMatch(c.Cfg.Creds, site, peer.Port); ok2 {
+							own = "Basic " + b64(u2+":"+p2)
+						}
+					}
+					for _, m := range msgs {
+						for _, v := range m.Get("Authorization") {
+							if v == secret && v != own {
+								fails = append(fails, vstat.Failf(key("site-credentials-at-another-site"), "peer %s received Authorization %q - the entry for %s:%s, named only in the Host field of a request inside a session opened to %s: %s", peerName, v, h2, o2.Port, r.Host, desc))
+							}
+						}
+					}
+				}
+			}
+			if len(fails) > 0 {
+				return fails
+			}
+			continue
+		}
 		host, origin := e.hostOf(r.Host)
 		// expected upstream proxy credentials
 		wantPA := ""
